@@ -27,6 +27,9 @@ func c12Segments() []refmodel.Seg {
 			refmodel.Seg{Kind: "field", Field: "b", Opt: opt},
 			refmodel.Seg{Kind: "field", Field: "a", Quoted: true, Opt: opt},
 			refmodel.Seg{Kind: "field", Field: "", Quoted: true, Opt: opt},
+			// quoted names with blanks: the name is taken as written
+			refmodel.Seg{Kind: "field", Field: "a b", Quoted: true, Opt: opt},
+			refmodel.Seg{Kind: "field", Field: " ", Quoted: true, Opt: opt},
 		)
 	}
 	for _, opt := range []bool{false, true} {
@@ -377,9 +380,9 @@ func C12() *engine.Check {
 		Subs: []*engine.Sub{{
 			Name:   "resolve-vs-segmentwise-reference",
 			Repeat: true,
-			Rule:   "every sequence of segments from a 101-segment alphabet (fields .a .b [\"a\"] [\"\"], indexes 0 1 -1 -2 5 -5, slices over bounds {none,-4,-1,0,1,4}, iterator; each with and without '?'; plus 9 leading-zero spellings of indexes and slice bounds) parsed from its text, resolved on " + fmt.Sprint(len(data)) + " IPLD values of every kind; compared with the fold of a per-segment reference (Python slice clamping, negative indexes, by-rune string slices) and, differentially, with resolving the last segment on the implementation's own result for the prefix; non-trivial = not (both error)",
+			Rule:   "every sequence of segments from a 105-segment alphabet (fields .a .b [\"a\"] [\"\"] [\"a b\"] [\" \"], indexes 0 1 -1 -2 5 -5, slices over bounds {none,-4,-1,0,1,4}, iterator; each with and without '?'; plus 9 leading-zero spellings of indexes and slice bounds) parsed from its text, resolved on " + fmt.Sprint(len(data)) + " IPLD values of every kind; compared with the fold of a per-segment reference (Python slice clamping, negative indexes, by-rune string slices) and, differentially, with resolving the last segment on the implementation's own result for the prefix; non-trivial = not (both error)",
 			Bound: func(t string) string {
-				return fmt.Sprintf("selectors of 0..%d segments (101^k each) x %d values", tierN(t, 2, 3), len(data))
+				return fmt.Sprintf("selectors of 0..%d segments (105^k each) x %d values", tierN(t, 2, 3), len(data))
 			},
 			Gen:     gen(2),
 			NewCase: func() any { return &c12Case{} },
